@@ -120,6 +120,12 @@ impl Middleware for Issue {
         mark(&self.3, format!("E {}", self.0));
         let res = match self.2 {
             None => client.get(&self.1).await?,
+            // odd k: the request is built once as a template and a CLONE of it is sent (a clone is the same request,
+            // per-request middleware included)
+            Some(a) if self.0 % 2 == 1 => {
+                let template: Request = client.get(&self.1).middleware(Redirect::new(a)).build();
+                client.send(template.clone()).await?
+            }
             Some(a) => client.get(&self.1).middleware(Redirect::new(a)).await?,
         };
         let status: u16 = res.status().into();
